@@ -231,6 +231,8 @@ class Curve:
         curve_b_bytes, rest = der.remove_octet_string(rest)
         # seed can be defined here, but we don't parse it, so ignore `rest`
 
+        if not curve_a_bytes or not curve_b_bytes:
+            raise der.UnexpectedDER("Empty ECParameters.curve coefficient")
         curve_a = string_to_number(curve_a_bytes)
         curve_b = string_to_number(curve_b_bytes)
 
